@@ -14,3 +14,5 @@ import TlxVerif.Props.C09
 #print axioms TlxVerif.C09.stepOK
 #print axioms TlxVerif.C09.initOK
 #print axioms TlxVerif.C09.source_types_ok
+#print axioms TlxVerif.C09.deleteMinInsert_consumed_key_unread
+#print axioms TlxVerif.C09.replace_TInv_recycled
